@@ -80,6 +80,7 @@ pub fn cmd_extra(args: &[String]) {
         "fault" => fault(&mut rep, seed, scale),
         "eqs" => eqs(&mut rep, seed, scale),
         "hb" => hb(&mut rep, seed, scale),
+        "zsh" => zsh(&mut rep, seed, scale),
         _ => {
             eprintln!("unknown extra slice {which}");
             std::process::exit(2);
@@ -2116,4 +2117,212 @@ fn hb(rep: &mut Report, seed: u64, scale: u64) {
             rep.samples.push(log.iter().take(30).cloned().collect::<Vec<_>>().join(" ; "));
         }
     }
+}
+
+// ------------------------------------------------------------------------------------------------
+// Histories on maps whose hash builder is a ZERO-SIZED type (`BuildHasherDefault<_>`, griddle's own default): every
+// other driver uses a builder with state, so a shortcut keyed on `size_of::<S>() == 0` — or on two maps being known
+// to hash alike — would never run there.  Plain `u64` elements against `BTreeMap`, phase-targeted like the main
+// generator (sizes around the growth thresholds, reserve-driven splits, emptied-in-place old tables), every public
+// call family, and after every call: len, contents through every read path, hook agreement, capacity >= len.
+fn zsh_run<S: std::hash::BuildHasher + Clone + Default>(rep: &mut Report, label: &str, seed: u64, rounds: u64) {
+    use griddle::hash_map::RawEntryMut;
+    for round in 0..rounds {
+        let mut g = Rng::new(seed.wrapping_mul(48_271).wrapping_add(round * 7 + 1));
+        let mut m: HashMap<u64, u64, S> = HashMap::default();
+        let mut r: BTreeMap<u64, u64> = BTreeMap::new();
+        let mut other: HashMap<u64, u64, S> = HashMap::default();
+        let mut rother: BTreeMap<u64, u64> = BTreeMap::new();
+        let target = *g.pick(&[3u64, 7, 14, 15, 28, 29, 31, 56, 57, 60, 112, 113, 120]);
+        let mut log: Vec<String> = vec![format!("hash builder: {label}")];
+        let mut next = 0u64;
+        let res = catch_unwind(AssertUnwindSafe(|| {
+            let mut problems: Vec<String> = vec![];
+            for step in 0..220 {
+                let split = m.verif_state().old.is_some();
+                let len = m.len() as u64;
+                let pick = |g: &mut Rng, r: &BTreeMap<u64, u64>| -> u64 {
+                    if r.is_empty() || g.chance(1, 4) { 1_000_000 + g.below(50) } else { *r.keys().nth(g.below(r.len() as u64) as usize).unwrap() }
+                };
+                let code = if len < target && g.chance(2, 3) { 0 } else { g.below(22) };
+                match code {
+                    0 | 1 => {
+                        let k = next;
+                        next += 1;
+                        log.push(format!("insert {k}"));
+                        if m.insert(k, k * 10) != r.insert(k, k * 10) { problems.push(format!("insert {k}")); }
+                    }
+                    2 => {
+                        let k = pick(&mut g, &r);
+                        log.push(format!("insert(overwrite) {k}"));
+                        if m.insert(k, 5) != r.insert(k, 5) { problems.push(format!("insert over {k}")); }
+                    }
+                    3 => {
+                        let k = pick(&mut g, &r);
+                        log.push(format!("remove {k}"));
+                        if m.remove(&k) != r.remove(&k) { problems.push(format!("remove {k}")); }
+                    }
+                    4 => {
+                        let k = pick(&mut g, &r);
+                        log.push(format!("remove_entry {k}"));
+                        if m.remove_entry(&k) != r.remove_entry(&k) { problems.push(format!("remove_entry {k}")); }
+                    }
+                    5 => {
+                        let n = *g.pick(&[0usize, 1, 5, 40, 300]);
+                        log.push(format!("reserve {n}"));
+                        m.reserve(n);
+                    }
+                    6 => {
+                        log.push("shrink_to_fit".into());
+                        m.shrink_to_fit();
+                    }
+                    7 => {
+                        let md = 2 + g.below(3);
+                        log.push(format!("retain k % {md} != 0"));
+                        m.retain(|k, _| k % md != 0);
+                        r.retain(|k, _| k % md != 0);
+                    }
+                    8 => {
+                        if split {
+                            // empty the old table in place
+                            let mut ok = vec![];
+                            m.verif_old_keys(usize::MAX, |x| ok.push(*x));
+                            log.push("retain: reject exactly the parked elements".into());
+                            m.retain(|k, _| !ok.contains(k));
+                            r.retain(|k, _| !ok.contains(k));
+                        }
+                    }
+                    9 => {
+                        let k = pick(&mut g, &r);
+                        log.push(format!("entry({k}).or_insert(1) += 1"));
+                        *m.entry(k).or_insert(1) += 1;
+                        *r.entry(k).or_insert(1) += 1;
+                    }
+                    10 => {
+                        let k = pick(&mut g, &r);
+                        log.push(format!("entry({k}).and_replace_entry_with(None)"));
+                        let _ = m.entry(k).and_replace_entry_with(|_, _| None);
+                        r.remove(&k);
+                    }
+                    11 => {
+                        let k = pick(&mut g, &r);
+                        log.push(format!("raw_entry_mut().from_key({k}).or_insert"));
+                        match m.raw_entry_mut().from_key(&k) {
+                            RawEntryMut::Occupied(mut o) => { *o.get_mut() += 3; }
+                            RawEntryMut::Vacant(v) => { v.insert(k, 3); }
+                        }
+                        *r.entry(k).or_insert(0) += 3;
+                    }
+                    12 => {
+                        log.push("other = clone(); other == self".into());
+                        other = m.clone();
+                        rother = r.clone();
+                        if !(other == m) || !(m == other) { problems.push("clone != original".into()); }
+                    }
+                    13 => {
+                        log.push("clone_from(other)".into());
+                        m.clone_from(&other);
+                        r = rother.clone();
+                    }
+                    14 => {
+                        log.push("other.clone_from(self)".into());
+                        other.clone_from(&m);
+                        rother = r.clone();
+                    }
+                    15 => {
+                        let eq = m == other;
+                        let eq2 = other == m;
+                        if eq != (r == rother) || eq2 != eq { problems.push(format!("== gives {eq} / {eq2}, reference {}", r == rother)); }
+                    }
+                    16 => {
+                        let items: Vec<(u64, u64)> = (0..g.below(20)).map(|i| (if g.chance(1, 3) { pick(&mut g, &r) } else { next + i }, i)).collect();
+                        next += 20;
+                        log.push(format!("extend {items:?}"));
+                        m.extend(items.clone());
+                        r.extend(items);
+                    }
+                    17 => {
+                        let md = 2 + g.below(3);
+                        log.push(format!("drain_filter k % {md} == 1"));
+                        let mut got: Vec<(u64, u64)> = m.drain_filter(|k, _| k % md == 1).collect();
+                        got.sort_unstable();
+                        let want: Vec<(u64, u64)> = r.iter().filter(|(k, _)| *k % md == 1).map(|(k, v)| (*k, *v)).collect();
+                        r.retain(|k, _| k % md != 1);
+                        if got != want { problems.push("drain_filter".into()); }
+                    }
+                    18 => {
+                        if g.chance(1, 4) {
+                            log.push("drain".into());
+                            let mut got: Vec<(u64, u64)> = m.drain().collect();
+                            got.sort_unstable();
+                            let want: Vec<(u64, u64)> = r.iter().map(|(k, v)| (*k, *v)).collect();
+                            r.clear();
+                            if got != want { problems.push("drain".into()); }
+                        }
+                    }
+                    19 => {
+                        log.push("iter_mut += 1".into());
+                        for (_, v) in m.iter_mut() { *v += 1; }
+                        for v in r.values_mut() { *v += 1; }
+                    }
+                    20 => {
+                        if g.chance(1, 3) {
+                            log.push("into_iter of a clone; from_iter".into());
+                            let mut got: Vec<(u64, u64)> = m.clone().into_iter().collect();
+                            got.sort_unstable();
+                            if got != r.iter().map(|(k, v)| (*k, *v)).collect::<Vec<_>>() { problems.push("into_iter".into()); }
+                            let f: HashMap<u64, u64, S> = r.iter().map(|(k, v)| (*k, *v)).collect();
+                            if !(f == m) { problems.push("from_iter != map".into()); }
+                        }
+                    }
+                    _ => {
+                        let k = pick(&mut g, &r);
+                        if m.get(&k) != r.get(&k) || m.contains_key(&k) != r.contains_key(&k) || m.get_key_value(&k) != r.get_key_value(&k)
+                            || m.raw_entry().from_key(&k) != r.get_key_value(&k) {
+                            problems.push(format!("lookups of {k} disagree with the reference"));
+                        }
+                    }
+                }
+                // after every call
+                if m.len() != r.len() || m.is_empty() != r.is_empty() { problems.push(format!("len {} vs {} after step {step}", m.len(), r.len())); }
+                if m.capacity() < m.len() { problems.push("capacity < len".into()); }
+                if let Some((l, _, _, cur)) = m.verif_state().old { if l != cur { problems.push("cursor count".into()); } }
+                let mut got: Vec<(u64, u64)> = m.iter().map(|(k, v)| (*k, *v)).collect();
+                got.sort_unstable();
+                if got != r.iter().map(|(k, v)| (*k, *v)).collect::<Vec<_>>() { problems.push(format!("contents differ from the reference after step {step}")); }
+                if m.keys().len() != r.len() || m.values().count() != r.len() { problems.push("keys()/values() length".into()); }
+                for (k, v) in r.iter().take(40) {
+                    if m.get(k) != Some(v) { problems.push(format!("get({k}) after step {step}")); break; }
+                }
+                if !problems.is_empty() { break; }
+                rep.tuples.insert(format!("{label} op{code} split{split}"));
+            }
+            problems
+        }));
+        rep.evaluations += 1;
+        let problems = match res {
+            Ok(p) => p,
+            Err(_) => vec![format!("panicked: {}", LAST_PANIC.with(|p| p.borrow().lines().last().unwrap_or("").to_string()))],
+        };
+        if !problems.is_empty() {
+            let text = format!("{label}: {}", problems.join("; "));
+            for p in ["C01", "C14", "C11", "C09", "C12", "C05"] {
+                let relevant = match p {
+                    "C11" => text.contains("clone"),
+                    "C14" => text.contains("==") || text.contains("lookups") || text.contains("get(") || text.contains("contents"),
+                    "C09" => text.contains("retain") || text.contains("drain_filter"),
+                    "C12" => log.last().map_or(false, |l| l.contains("entry")),
+                    "C05" => text.contains("panicked") || text.contains("cursor"),
+                    _ => true,
+                };
+                if relevant { rep.fail(p, text.clone(), log.join("\n")); }
+            }
+        }
+        if rep.samples.is_empty() { rep.samples.push(log.iter().take(25).cloned().collect::<Vec<_>>().join(" ; ")); }
+    }
+}
+
+fn zsh(rep: &mut Report, seed: u64, scale: u64) {
+    zsh_run::<ZB>(rep, "BuildHasherDefault (zero-sized)", seed, 600 * scale);
+    zsh_run::<griddle::hash_map::DefaultHashBuilder>(rep, "griddle's DefaultHashBuilder", seed, 400 * scale);
 }
